@@ -3,6 +3,7 @@ package checks
 import (
 	"fmt"
 	"sync"
+	"sync/atomic"
 	"time"
 
 	"github.com/vx-labs/wasp/v4/wasp"
@@ -637,7 +638,7 @@ func c03AckStormN(c *fw.Ctx, idx, rounds int) {
 }
 
 func runC03(c *fw.Ctx) {
-	c.Rule = "seeded scenarios on a broker node: 1-3 subscriber sessions (subscription QoS 1 or 2, automatic acknowledgement off) with 1-4 in-flight deliveries each; per delivery a response script (acknowledge in round 0-3 or never; QoS 2: PUBCOMP 0-2 rounds after PUBREC; optionally a wrong-type or unknown-identifier reply in some round), per session an optional disconnect round; each of 5 rounds = wrong replies, due replies, session ends, then a FORCED expiry sweep (ack.Queue.Expire with a time past every armed deadline, called by the harness) and a PINGREQ/PINGRESP barrier per session. Trace specification per delivery: >= 1+k PUBLISH copies after k sweeps unacknowledged, all with the first copy's identifier; after PUBREC >= 1 PUBREL per sweep and no further PUBLISH; after completion nothing more and the identifier is in the pool's free list (hook H1); after a session ends its identifiers are freed by the next sweep. Plus real-time scenarios without forced sweeps: silent subscribers are watched for 11 s and must see >=3 copies produced by the broker's own ticker, with deliveries started at different sub-second phases. distinct = script; non-trivial = every scenario (>=1 unacknowledged sweep)"
+	c.Rule = "seeded scenarios on a broker node: 1-3 subscriber sessions (subscription QoS 1 or 2, automatic acknowledgement off) with 1-4 in-flight deliveries each; per delivery a response script (acknowledge in round 0-3 or never; QoS 2: PUBCOMP 0-2 rounds after PUBREC; optionally a wrong-type or unknown-identifier reply in some round), per session an optional disconnect round; each of 5 rounds = wrong replies, due replies, session ends, then a FORCED expiry sweep (ack.Queue.Expire with a time past every armed deadline, called by the harness) and a PINGREQ/PINGRESP barrier per session. Trace specification per delivery: >= 1+k PUBLISH copies after k sweeps unacknowledged, all with the first copy's identifier; after PUBREC >= 1 PUBREL per sweep and no further PUBLISH; after completion nothing more and the identifier is in the pool's free list (hook H1); after a session ends its identifiers are freed by the next sweep. Plus real-time scenarios without forced sweeps: silent subscribers are watched for 11 s and must see >=3 copies produced by the broker's own ticker, with deliveries started at different sub-second phases. Plus: deliveries whose very first write fails transiently (fault-injecting connection) must be retransmitted by the next sweeps; nodes whose identifier range is exactly as wide as the number of deliveries in flight (the highest identifier is used and must come back); PUBACKs racing back-to-back sweeps. distinct = script; non-trivial = every scenario (>=1 unacknowledged sweep)"
 	c.Assume("lower bounds only: the writer's own 1 s ticker may add copies")
 	c.Assume("wrong replies are sent with identifiers +20000 (unknown) or with a packet type the exchange does not wait for")
 	n := c.Pick(150, 1500)
@@ -660,8 +661,186 @@ func runC03(c *fw.Ctx) {
 		wg.Add(1)
 		go func(i int) { defer wg.Done(); c03AckStorm(c, i) }(i)
 	}
+	for i := 0; i < c.Pick(4, 24); i++ {
+		wg.Add(2)
+		go func(i int) { defer wg.Done(); c03WriteFault(c, i) }(i)
+		go func(i int) { defer wg.Done(); c03PoolEdge(c, i) }(i)
+	}
 	wg.Wait()
 	c.Floor("retransmissions_seen", 20)
 	c.Floor("completions_checked", 20)
 	c.Floor("forced_sweeps", 50)
+}
+
+// c03WriteFault: the very first write of a QoS 1 / QoS 2 delivery fails (a transient fault of the
+// outbound direction; the session stays connected). The delivery is unacknowledged, so the next
+// sweep must retransmit it; once acknowledged its identifier is free again.
+func c03WriteFault(c *fw.Ctx, idx int) {
+	fw.LogCase("C03 write fault %d", idx)
+	cl := kit.NewCluster(kit.WorkDir("c03w"))
+	defer cl.Close()
+	n, err := cl.AddNode(kit.NodeOpts{ID: 1})
+	if err != nil {
+		c.Inconclusive("cannot start node: " + err.Error())
+		return
+	}
+	qos := 1 + idx%2
+	sub, fault := n.DialFaulty(fmt.Sprintf("wf-sub-%d", idx))
+	defer sub.Close()
+	if code, err := sub.Connect(kit.ConnectOpts{ClientID: fmt.Sprintf("wf-sub-%d", idx), KeepAlive: 600, Clean: true}); err != nil || code != 0 {
+		c.Inconclusive("connect failed")
+		return
+	}
+	sub.SetAutoAck(false)
+	if err := sub.Sub1("c03/wf", qos); err != nil {
+		c.Inconclusive("subscribe: " + err.Error())
+		return
+	}
+	pub, err := n.MustConnect(kit.ConnectOpts{ClientID: fmt.Sprintf("wf-pub-%d", idx), KeepAlive: 600, Clean: true})
+	if err != nil {
+		c.Inconclusive("connect: " + err.Error())
+		return
+	}
+	defer pub.Close()
+	far := time.Now()
+	for k := 0; k < 3; k++ {
+		tag := fmt.Sprintf("wf-%d-%d", idx, k)
+		fault.FailNextWrites(1)
+		before := atomic.LoadInt64(&fault.Failed)
+		if acked, _ := pub.Publish("c03/wf", []byte(tag), 1, false, kit.DefaultWait); !acked {
+			c.Inconclusive("publish not acknowledged")
+			return
+		}
+		if !waitCount(func() int { return int(atomic.LoadInt64(&fault.Failed) - before) }, 1, 20*time.Second) {
+			c.Inconclusive("the injected write failure was never hit")
+			return
+		}
+		if np, _ := c03Count(sub, kit.PUBLISH, tag, 0); np != 0 {
+			c.Inconclusive("the first copy arrived although its write was to fail")
+			return
+		}
+		// sweeps: the unacknowledged delivery is written again
+		var id int
+		for s := 0; s < 3 && id == 0; s++ {
+			far = far.Add(time.Hour)
+			n.Ack.Expire(far)
+			if ok, _ := sub.Ping(kit.DefaultWait); !ok {
+				if sub.Closed() {
+					c.Violation("session-dropped", fmt.Sprintf("write-fault scenario %d: one failed write of a PUBLISH ended the session", idx), nil)
+				} else {
+					c.Inconclusive("no PINGRESP")
+				}
+				return
+			}
+			for _, p := range sub.Publishes() {
+				if string(p.Payload) == tag {
+					id = p.ID
+				}
+			}
+		}
+		c.Observe("write_fault_deliveries", 1)
+		if id == 0 {
+			c.Violation(fmt.Sprintf("not-retransmitted:qos%d:after-write-failure", qos), fmt.Sprintf("write-fault scenario %d: the first write of the QoS %d delivery %s failed (session still connected); three forced sweeps later it has not been written again", idx, qos, tag),
+				map[string]interface{}{"scenario": idx, "qos": qos, "tag": tag})
+			return
+		}
+		c.Observe("retransmissions_seen", 1)
+		if qos == 1 {
+			sub.Send(kit.EncPubAck(id))
+		} else {
+			from := sub.NumEvents()
+			sub.Send(kit.EncPubRec(id))
+			if _, _, err := sub.WaitFor(from, kit.DefaultWait, func(e kit.Event) bool { return e.Pkt.Type == kit.PUBREL && e.Pkt.ID == id }); err != nil {
+				c.Violation("pubrel-missing", fmt.Sprintf("write-fault scenario %d: no PUBREL after PUBREC for %s", idx, tag), nil)
+				return
+			}
+			sub.Send(kit.EncPubComp(id))
+		}
+		if ok, _ := sub.Ping(kit.DefaultWait); !ok {
+			c.Inconclusive("no PINGRESP")
+			return
+		}
+		if !poolHas(n, id) {
+			c.Violation("identifier-not-freed", fmt.Sprintf("write-fault scenario %d: %s (id %d) was acknowledged but its identifier is not back in the pool", idx, tag, id), nil)
+			return
+		}
+		c.Observe("completions_checked", 1)
+	}
+	c.Case(fmt.Sprintf("write-fault|%d", idx), true)
+}
+
+// c03PoolEdge: a node whose identifier range is exactly as large as the number of deliveries in flight,
+// so that the highest identifier of the range is used; after completion every identifier - the
+// highest included - is free again and a second batch of the same size goes through.
+func c03PoolEdge(c *fw.Ctx, idx int) {
+	fw.LogCase("C03 pool edge %d", idx)
+	width := 2 + idx%4
+	lo := int32(1 + 7*(idx%3))
+	cl := kit.NewCluster(kit.WorkDir("c03e"))
+	defer cl.Close()
+	n, err := cl.AddNode(kit.NodeOpts{ID: 1, PoolMin: lo, PoolMax: lo + int32(width) - 1})
+	if err != nil {
+		c.Inconclusive("cannot start node: " + err.Error())
+		return
+	}
+	qos := 1 + idx%2
+	sub, err := n.MustConnect(kit.ConnectOpts{ClientID: "edge-sub", KeepAlive: 600, Clean: true})
+	if err != nil {
+		c.Inconclusive("connect: " + err.Error())
+		return
+	}
+	defer sub.Close()
+	sub.SetAutoAck(false)
+	if err := sub.Sub1("c03/edge", qos); err != nil {
+		c.Inconclusive("subscribe: " + err.Error())
+		return
+	}
+	pub, err := n.MustConnect(kit.ConnectOpts{ClientID: "edge-pub", KeepAlive: 600, Clean: true})
+	if err != nil {
+		c.Inconclusive("connect: " + err.Error())
+		return
+	}
+	defer pub.Close()
+	for batch := 0; batch < 3; batch++ {
+		ids := map[string]int{}
+		for k := 0; k < width; k++ {
+			tag := fmt.Sprintf("edge-%d-%d-%d", idx, batch, k)
+			if acked, _ := pub.Publish("c03/edge", []byte(tag), 1, false, kit.DefaultWait); !acked {
+				c.Inconclusive("publish not acknowledged")
+				return
+			}
+			ev, _, err := sub.WaitFor(0, 15*time.Second, func(e kit.Event) bool { return e.Pkt.Type == kit.PUBLISH && string(e.Pkt.Payload) == tag })
+			if err != nil {
+				c.Violation("first-copy-missing", fmt.Sprintf("pool-edge scenario %d (identifier range [%d,%d], QoS %d): in batch %d the delivery %s was never written although at most %d deliveries are in flight and every earlier one was acknowledged", idx, lo, lo+int32(width)-1, qos, batch, tag, k),
+					map[string]interface{}{"scenario": idx, "batch": batch, "pool": fmt.Sprint(wasp.VerifPoolFree(wasp.VerifWriterPool(n.Writer)))})
+				return
+			}
+			ids[tag] = ev.Pkt.ID
+		}
+		for tag, id := range ids {
+			if qos == 1 {
+				sub.Send(kit.EncPubAck(id))
+			} else {
+				from := sub.NumEvents()
+				sub.Send(kit.EncPubRec(id))
+				if _, _, err := sub.WaitFor(from, kit.DefaultWait, func(e kit.Event) bool { return e.Pkt.Type == kit.PUBREL && e.Pkt.ID == id }); err != nil {
+					c.Violation("pubrel-missing", fmt.Sprintf("pool-edge scenario %d: no PUBREL after PUBREC for %s", idx, tag), nil)
+					return
+				}
+				sub.Send(kit.EncPubComp(id))
+			}
+		}
+		if ok, _ := sub.Ping(kit.DefaultWait); !ok {
+			c.Inconclusive("no PINGRESP")
+			return
+		}
+		for tag, id := range ids {
+			c.Observe("completions_checked", 1)
+			if !poolHas(n, id) {
+				c.Violation("identifier-not-freed", fmt.Sprintf("pool-edge scenario %d (identifier range [%d,%d]): %s (id %d) was acknowledged but its identifier is not back in the pool (free: %v)", idx, lo, lo+int32(width)-1, tag, id, wasp.VerifPoolFree(wasp.VerifWriterPool(n.Writer))), nil)
+				return
+			}
+		}
+	}
+	c.Case(fmt.Sprintf("pool-edge|%d", idx), true)
 }
